@@ -407,6 +407,10 @@ func (s *handler) handle(ctx context.Context, req request, w func(func(io.Writer
 			}
 
 			callParams[i+1+handler.hasCtx] = reflect.ValueOf(rp.Interface())
+			if !callParams[i+1+handler.hasCtx].IsValid() {
+				// nil value of an interface-typed param (JSON null)
+				callParams[i+1+handler.hasCtx] = reflect.Zero(typ)
+			}
 		}
 	}
 
